@@ -145,17 +145,40 @@ func scribble(buf *bytes.Buffer) {
 
 // LibDecode decodes b with the library into a fresh object of the type.
 func LibDecode(typeName string, b []byte) (v *Value, rest []byte, err error, panicked any) {
-	obj := regByName[typeName].New()
-	buf := bytes.NewBuffer(append([]byte{}, b...))
+	return LibDecodeInto(regByName[typeName].New(), typeName, b)
+}
+
+// LibDecodeInto decodes b into the given receiver. The bytes sit in a buffer the harness owns; once the decoder
+// has returned, the whole backing array is overwritten BEFORE the message is read out of the struct: a decoder
+// that kept views of the input instead of copies (C16) shows up as a wrong value in whichever check called this.
+func LibDecodeInto(obj any, typeName string, b []byte) (v *Value, rest []byte, err error, panicked any) {
+	in := append(make([]byte, 0, len(b)+8), b...)
+	buf := bytes.NewBuffer(in)
 	err, panicked, _ = safely(func() error { return DecodeAny(obj, buf) })
+	rest = append([]byte{}, buf.Bytes()...)
+	in = in[:cap(in)]
+	for i := range in {
+		in[i] = 0xC9 ^ byte(i*7)
+	}
 	if err != nil || panicked != nil {
-		return nil, buf.Bytes(), err, panicked
+		return nil, rest, err, panicked
 	}
 	v, cerr := FromStruct(obj, typeName)
 	if cerr != nil {
-		return nil, buf.Bytes(), fmt.Errorf("decoded object not representable: %w", cerr), nil
+		return nil, rest, fmt.Errorf("decoded object not representable: %w", cerr), nil
 	}
-	return v, buf.Bytes(), nil, nil
+	return v, rest, nil, nil
+}
+
+// UsedReceiver returns an object of the type that has already decoded the encoding of prior (nil prior: fresh).
+func UsedReceiver(typeName string, prior *Value) any {
+	obj := regByName[typeName].New()
+	if prior != nil {
+		if r := Render(prior, nil); !r.MustError {
+			_, _, _ = safely(func() error { return DecodeAny(obj, bytes.NewBuffer(append([]byte{}, r.Bytes...))) })
+		}
+	}
+	return obj
 }
 
 func hexClip(b []byte) string {
